@@ -13,6 +13,18 @@ TB_VALUE = TB_COMMON + [
 ]
 
 PROPS = {
+    "C18": {
+        "n_quick": 260, "n_thorough": 6000,
+        "check_fn": "k18_check",
+        "rule": "boundary numbers (2^k-2 .. 2^k+1 for k in 7,8,15,16,31,32,63,64 with both signs, fractions, float32/float64 limits and subnormals, 1e39, 1e400, infinities, signed zero) "
+                "and pool / random numbers x 14 Go numeric targets (int8..int64, int, uint8..uint64, uint, float32, float64, big.Int, big.Float); decoded values re-encoded; a struct family "
+                "(tagged struct with uint16, []string, map[string]int8, nested struct, pointer to struct, embedded cty.Value, map[string][]*int; nil slices / maps / pointers) round-tripped "
+                "through ImpliedType / ToCtyValue / FromCtyValue; non-trivial = every case",
+        "trusted_base": TB_COMMON + ["math/big.Float modelled bit-exactly (Model/BigFloat.v), including Float64/Int64/Uint64 accuracy flags, validated by the correspondence",
+                                     "reflection-based struct/slice/map/pointer handling of gocty is exercised by the implementation-side oracle only (not modelled)"],
+        "assumptions": ["NaN is excluded (big.Float cannot hold it)"],
+        "partial": ["the Gallina model and theorems cover the numeric decoding/encoding (all 14 numeric targets); slices, maps, structs, pointers and embedded dynamic values are decided by the round-trip oracle on a fixed Go type family"],
+    },
     "C19": {
         "n_quick": 260, "n_thorough": 8000,
         "check_fn": "k19_check",
